@@ -158,6 +158,10 @@ private:
         props[prop::reason_string] = reason;
         auto svc_ptr = _svc_ptr; // copy before this is moved
 
+        // bytes buffered behind a malformed packet belong to the connection
+        // that is being given up; they must not be parsed after the reconnect
+        svc_ptr->discard_read_buffer();
+
         async_disconnect(
             disconnect_rc_e::malformed_packet, props, svc_ptr,
             asio::prepend(std::move(*this), on_disconnect {})
